@@ -4,11 +4,10 @@
 (* bad value, over-long, empty), the pool initially holding one buffer with the    *)
 (* stale contents of a full 14-element vector.  With Hist = TRUE every complete    *)
 (* interleaving is a distinct terminal state and is printed ("@P") for the gate    *)
-(* replay on the real code; with Hist = FALSE the schedule is hidden from the      *)
-(* fingerprint (VIEW) and TLC checks the invariants on all interleavings.          *)
+(* replay on the real code; with Hist = FALSE the schedule is not recorded and TLC *)
+(* checks the invariants - and, under SPECIFICATION Spec, that every call          *)
+(* terminates (PROPERTY Terminates) - on all interleavings.                        *)
 EXTENDS Pool, Family, TLC, Json
-
-CONSTANT Hist
 
 Shape20(o, t, e) ==
   LET w == Base20 \o (IF t THEN Temp20 ELSE <<>>) \o (IF e THEN Env20 ELSE <<>>)
